@@ -1,6 +1,6 @@
 """C05 - multi-source operators honour every arrival order (DESIGN 6/C05)."""
 import json
-import vlib, parts_multi
+import vlib, parts_multi, tracecheck
 
 PID = 'C05'
 
@@ -9,16 +9,22 @@ def main(argv):
     rep = vlib.Report(PID, 'model_checking', argv)
     vlib.build_harness()
     parts_multi.run(rep, PID, rep.tier == 'thorough')
+    # concurrent clause: some arrival order compatible with each source's own order must explain the output (MultiLin.tla)
+    th = rep.tier == 'thorough'
+    tracecheck.run(rep, PID, 'drive-multilin', 'MultiLin', 'MultiLin_x.cfg', 1500 if th else 400, [rep.seed * 100 + i for i in range(5 if th else 1)], 'multilin', comp_key='Op', dfs=True)
+    tracecheck.run(rep, PID, 'drive-multilin', 'MultiLin', 'MultiLin_x.cfg', 120 if th else 30, [rep.seed * 100 + 50 + i for i in range(3 if th else 1)], 'multilin-park', comp_key='Op', extra=['-park'], dfs=True)
     rep.cov['rule'] = ('TLC enumerates every behaviour of Multi.tla: for each multi-source operator instance (merge, combine-latest, zip, race, take/skip-until, '
                        'buffer/sample/throttle-when; creation and operator forms, 2 and 3 sources) every tuple of source scripts (values distinguishable per source; '
                        'completion, error or silence as ending) and EVERY interleaving of them, optionally an Unsubscribe at every position; each case is replayed '
                        'on the real operator over controllable sources, observation (output, IsClosed, per-source subscribe/teardown counters) compared after each arrival; '
                        'non-trivial = at least two sources emitted')
     rep.cov['exhaustive'] = True
-    rep.assumptions += ['sequential clause only: each notification is processed to quiescence before the next is issued', 'bounded: <= 3 notifications per source, 2-3 sources']
+    rep.assumptions += ['concurrent clause: free-running producers with yield hooks and park-mode schedule replay (one preemption at every hook point), 2 sources x <= 3 notifications, linearized by TLC', 'bounded: <= 3 notifications per source, 2-3 sources']
     return rep.finish()
 
 
 def replay(path):
     vlib.build_harness()
+    if path.endswith('.ndjson'):
+        return tracecheck.replay(PID, 'MultiLin', 'MultiLin_x.cfg', path, dfs=True)
     return parts_multi.replay_case(PID, path)
